@@ -133,6 +133,20 @@ def run(repo, chk):
     chk.ob("R11.2", "_ann:only-@-strings-are-rewritten", "isinstance(ann, ast.Str) and ann.s.startswith('@')" in ta and len(returns_of(an_fn.node)) == 1 and norm(returns_of(an_fn.node)[0].value) == "ann",
            an_fn.where, "only string annotations starting with '@' are turned into get_tags calls; anything else is passed through unchanged")
     chk.ob("R11.2", "_ann:splits-on-&-and-strips-@", "re.split(' *& *', ann.s)" in ta and "ast.Str(s=tag[1:])" in ta, an_fn.where, "'@A & @B' is split on & and each tag name loses its '@'")
+    mi = repo.func(f"transform.{cls}.make_interaction")
+    table_writes = [n for n in walk_local(mi.node) if isinstance(n, ast.Assign) and norm(n.targets[0]).startswith("self.annotated[")]
+    def guarded_by_ann(n):
+        cur, child = getattr(n, "_parent", None), n
+        while cur is not None and cur is not mi.node:
+            if isinstance(cur, ast.If) and any(child is b for b in cur.body):
+                parts = cur.test.values if isinstance(cur.test, ast.BoolOp) and isinstance(cur.test.op, ast.And) else [cur.test]
+                if any(is_name(p_, "ann") for p_ in parts):
+                    return True
+            child, cur = cur, getattr(cur, "_parent", None)
+        return False
+    chk.ob("R11.2", "make_interaction:annotation-table-written-only-at-annotated-bindings", bool(table_writes) and all(guarded_by_ann(n) for n in table_writes), mi.where,
+           "the per-variable annotation table (what verification and generic captures consult) is written only when the binding carries an annotation: "
+           "a later un-annotated re-binding of the same name cannot erase the tag")
     gt = repo.func("tags.get_tags")
     tg = norm(gt.node)
     chk.ob("R11.2", "tags.get_tags:single-vs-set", "if len(tags) == 1: return tags[0] else: return TagSet(tags)" in tg and "getattr(tag, tg) if isinstance(tg, str) else tg" in tg, gt.where,
